@@ -41,12 +41,30 @@ def gen_tuples(rng, n):
 
         def sv(w):
             lo, hi = -(1 << (w - 1)), (1 << (w - 1)) - 1
-            return rng.choice([lo, lo + 1, -1, 0, 1, hi - 1, hi]) if rng.random() < 0.5 else rng.randint(lo, hi)
+            r = rng.random()
+            if r < 0.35:
+                return rng.choice([lo, lo + 1, -1, 0, 1, hi - 1, hi])
+            if r < 0.6:
+                # every power of two is the minimum, the "invalid" marker or the carry point of some field at some
+                # resolution (MSM4 markers at MSM7 scale and the like): +-2^k and its neighbours, for every k
+                k = rng.randint(0, w - 1)
+                return max(lo, min(hi, rng.choice([-1, 1]) * (1 << k) + rng.choice([-1, 0, 0, 0, 1])))
+            return rng.randint(lo, hi)
         d, p = sv(wd), sv(wp)
         R, r = (sv(14), sv(15)) if k7 else (0, 0)
         cons = rng.choice([1, 2, 3, 6, 1, 3, 4, 5, 7, 0])
         sig = rng.randint(1, 32)
         out.append((k7, W, F, d, p, R, r, cons, sig))
+    # every +-2^k exactly, in each signed field
+    for k7 in (0, 1):
+        wd, wp = (20, 24) if k7 else (15, 22)
+        for k in range(0, 24):
+            for sgn in (-1, 1):
+                d = max(-(1 << (wd - 1)), min((1 << (wd - 1)) - 1, sgn * (1 << min(k, wd - 1))))
+                p = max(-(1 << (wp - 1)), min((1 << (wp - 1)) - 1, sgn * (1 << min(k, wp - 1))))
+                R = max(-(1 << 13), min((1 << 13) - 1, sgn * (1 << min(k, 13)))) if k7 else 0
+                r = max(-(1 << 14), min((1 << 14) - 1, sgn * (1 << min(k, 14)))) if k7 else 0
+                out.append((k7, 80, 512, d, p, R, r, rng.choice([1, 2, 3, 6]), rng.randint(1, 32)))
     # every signal of the four constellations once
     for cons in (1, 2, 3, 6):
         for sig in range(1, 33):
